@@ -340,26 +340,24 @@ Lemma absR_abs_state s : absR s (abs_state s).
 Proof. split; [reflexivity|]. apply abs_tabs_rel. Qed.
 
 Lemma mstep_refines s a o :
-  absR s a -> op_ok s o = true ->
+  absR s a ->
   absR (fst (mstep s o)) (fst (sstep a o)) /\ snd (mstep s o) = snd (sstep a o).
 Proof.
-  intros HR Hok.
-  apply (step_sim m_ops s_ops (al_abs String.eqb) (al_fn_sim String.eqb string_eqb_ok) true false s a o HR).
+  intros HR.
+  apply (step_sim m_ops s_ops (al_abs String.eqb) (al_fn_sim String.eqb string_eqb_ok) false false s a o HR).
   destruct o; cbn; auto. destruct p; auto.
-  cbn in Hok. destruct (nth_error (st_tabs s) t) as [tb|]; auto.
+  destruct (nth_error (st_tabs s) t) as [tb|]; auto.
   destruct (t_parent tb) as [q|]; auto.
-  destruct (parent_empty m_ops s q); [discriminate|reflexivity].
 Qed.
 
 Lemma history_refines ops : forall s a,
-  absR s a -> hist_ok s ops = true ->
+  absR s a ->
   mouts s ops = souts a ops /\ absR (mexec s ops) (sexec a ops).
 Proof.
-  induction ops as [|o r IH]; intros s a HR Hok.
+  induction ops as [|o r IH]; intros s a HR.
   - split; [reflexivity|exact HR].
-  - cbn [hist_ok] in Hok. apply andb_prop in Hok as [Ho Hr].
-    destruct (mstep_refines s a o HR Ho) as [HR' Hout].
-    destruct (IH _ _ HR' Hr) as [Houts Hfin].
+  - destruct (mstep_refines s a o HR) as [HR' Hout].
+    destruct (IH _ _ HR') as [Houts Hfin].
     split.
     + unfold mouts, souts, mstep, sstep in *. cbn [outs].
       f_equal; [exact Hout|exact Houts].
@@ -367,38 +365,30 @@ Proof.
 Qed.
 
 Lemma history_refines_from_init ops :
-  hist_ok minit ops = true ->
   mouts minit ops = souts sinit ops /\ absR (mexec minit ops) (sexec sinit ops).
 Proof. apply history_refines, absR_init. Qed.
 
 Lemma history_refines_abs ops s :
-  hist_ok s ops = true ->
   mouts s ops = souts (abs_state s) ops /\ absR (mexec s ops) (sexec (abs_state s) ops).
 Proof. apply history_refines, absR_abs_state. Qed.
 
-(** histories without an implicit-parent clone are in the class *)
-Definition no_keep_clone (o : op) : bool := match o with OClone _ PKeep => false | _ => true end.
-
-Lemma hist_ok_no_keep_clone ops : forall s, forallb no_keep_clone ops = true -> hist_ok s ops = true.
-Proof.
-  induction ops as [|o r IH]; intros s H; [reflexivity|].
-  cbn in H. apply andb_prop in H as [H1 H2]. cbn [hist_ok]. rewrite (IH _ H2), andb_true_r.
-  destruct o; try reflexivity. destruct p; [discriminate|reflexivity].
-Qed.
-
-(** outside the class the code departs from the mapping semantics (known finding) *)
+(** F7c, repaired by 0d55598: with the old clone() (parent dropped below an EMPTY parent table) the refinement failed;
+    on the same history the present model agrees with the specification *)
 Definition clone_witness : list op :=
   [ONewScope None; ONewScope (Some 0%nat); OClone 1%nat PKeep; ONew (2%Z, Some 7%Z);
    OSet 0%nat "N" 0%nat; OLookup 2%nat "n" true].
 
-Lemma clone_refuted : exists ops, hist_ok minit ops = false /\ mouts minit ops <> souts sinit ops.
-Proof. exists clone_witness. split; [vm_compute; reflexivity|vm_compute; discriminate]. Qed.
+Lemma clone_old_refuted :
+  exists ops, mouts_old minit ops <> souts sinit ops /\ mouts minit ops = souts sinit ops.
+Proof. exists clone_witness. split; [vm_compute; discriminate|vm_compute; reflexivity]. Qed.
 
-Example hist_ok_example :
-  let ops := [ONewScope None; ONew (2%Z, Some 1%Z); OSet 0%nat "N" 0%nat; ONewScope (Some 0%nat);
-              OClone 1%nat PKeep; OMutate 0%nat (3%Z, None); OLookup 2%nat "n(1)" true] in
-  hist_ok minit ops = true /\
-  mouts minit ops = [OutTab 0; OutObj 0 (2%Z, Some 1%Z); OutNone; OutTab 1; OutTab 2; OutNone; OutObj 1 (2%Z, Some 1%Z)].
+(** a non-trivial history: scopes, clone below an empty and below a non-empty parent, caller mutation, re-spelled look-ups *)
+Example history_example :
+  let ops := [ONewScope None; ONewScope (Some 0%nat); OClone 1%nat PKeep; ONew (2%Z, Some 1%Z); OSet 0%nat "N" 0%nat;
+              OClone 1%nat PKeep; OMutate 0%nat (3%Z, None); OLookup 2%nat "n(1)" true; OLookup 3%nat "N" true] in
+  mouts minit ops = [OutTab 0; OutTab 1; OutTab 2; OutObj 0 (2%Z, Some 1%Z); OutNone; OutTab 3; OutNone;
+                     OutObj 1 (2%Z, Some 1%Z); OutObj 2 (2%Z, Some 1%Z)]
+  /\ mouts minit ops = souts sinit ops.
 Proof. vm_compute. split; reflexivity. Qed.
 
 (* ------------------------------------------------------------------------- *)
@@ -476,9 +466,9 @@ Section SymFacts.
           = fold_left (fun e p => tset P (fmt (fst p)) (nth (snd p) objs deferred) e) l' e.
   Proof.
     induction 1 as [|p p' l l' [Hk Hr] _ IH]; intros objs; [split; reflexivity|].
-    destruct (IH objs) as [IH1 IH2]. split; cbn.
-    - now rewrite Hr, IH1.
-    - intros e. unfold same_key in Hk. rewrite Hk, Hr. apply IH2.
+    destruct (IH objs) as [IH1 IH2]. split.
+    - cbn [forallb]. now rewrite Hr, IH1.
+    - intros e. cbn [fold_left]. unfold same_key in Hk. rewrite Hk, Hr. apply IH2.
   Qed.
 
   Lemma with_ents_ext (s : @gstate T) t f g : (forall e, f e = g e) -> with_ents s t f = with_ents s t g.
@@ -590,23 +580,55 @@ Qed.
 Lemma nth_error_lt {A} (l : list A) i x : nth_error l i = Some x -> (i <? length l)%nat = true.
 Proof. intros H. apply Nat.ltb_lt. apply nth_error_Some. congruence. Qed.
 
-(** the table keeps its own copy of an inserted object, and hands out copies *)
+Lemma mouts_cons s o r : mouts s (o :: r) = snd (mstep s o) :: mouts (fst (mstep s o)) r.
+Proof. reflexivity. Qed.
+
+Lemma step_set_ok (s : mstate) t n r tb v :
+  nth_error (st_tabs s) t = Some tb -> nth_error (st_objs s) r = Some v ->
+  mstep s (OSet t n r) = (with_ents s t (tset m_ops (fmt n) v), OutNone).
+Proof. intros Et Er. unfold mstep; cbn [step]. now rewrite Et, Er. Qed.
+
+Lemma step_mutate_ok (s : mstate) r w :
+  (r < length (st_objs s))%nat ->
+  mstep s (OMutate r w) = (mkSt (upd_nth (st_objs s) r (fun _ => w)) (st_tabs s), OutNone).
+Proof. intros H. unfold mstep; cbn [step]. apply Nat.ltb_lt in H. now rewrite H. Qed.
+
+Lemma step_getitem_ok (s : mstate) t n tb v :
+  nth_error (st_tabs s) t = Some tb -> tget m_ops (fmt n) (t_ents tb) = Some v ->
+  mstep s (OGetItem t n) = give s v.
+Proof. intros Et Eg. unfold mstep; cbn [step]. now rewrite Et, Eg. Qed.
+
+(** the table keeps its own copy of an inserted object ... *)
 Lemma set_stores_copy s t n n' r tb v w :
   nth_error (st_tabs s) t = Some tb -> nth_error (st_objs s) r = Some v -> same_key n n' ->
-  mouts s [OSet t n r; OMutate r w; OGetItem t n'; OMutate (length (st_objs s)) w; OGetItem t n']
-  = [OutNone; OutNone; OutObj (length (st_objs s)) v; OutNone; OutObj (S (length (st_objs s))) v].
+  mouts s [OSet t n r; OMutate r w; OGetItem t n'] = [OutNone; OutNone; OutObj (length (st_objs s)) v].
 Proof.
-  intros Et Er H. unfold same_key in H. unfold mouts. cbn [outs].
-  unfold step at 1 2. rewrite Et, Er. cbn [fst snd].
-  unfold step at 1 2. cbn [with_ents st_objs st_tabs]. rewrite (nth_error_lt _ _ _ Er). cbn [fst snd].
-  unfold step at 1 2. cbn [st_objs st_tabs].
-  rewrite (nth_error_upd_nth_same _ _ _ _ Et). cbn [t_ents]. rewrite <- H, m_get_set. cbn [fst snd give alloc st_objs st_tabs].
-  rewrite upd_nth_length.
-  unfold step at 1 2. cbn [st_objs st_tabs]. rewrite app_length, upd_nth_length. cbn [length].
-  replace (length (st_objs s) <? length (st_objs s) + 1)%nat with true by (symmetry; apply Nat.ltb_lt; lia).
-  cbn [fst snd]. unfold step. cbn [st_objs st_tabs].
-  rewrite (nth_error_upd_nth_same _ _ _ _ Et). cbn [t_ents]. rewrite m_get_set. cbn [fst snd give alloc st_objs st_tabs].
-  rewrite upd_nth_length, app_length, upd_nth_length. cbn [length]. repeat f_equal. lia.
+  intros Et Er H. unfold same_key in H.
+  assert (Hlt : (r < length (st_objs s))%nat) by (apply nth_error_Some; congruence).
+  rewrite mouts_cons, (step_set_ok s t n r tb v Et Er). cbn [fst snd].
+  rewrite mouts_cons, step_mutate_ok by exact Hlt. cbn [fst snd].
+  rewrite mouts_cons.
+  erewrite step_getitem_ok.
+  - cbn [fst snd give alloc st_objs]. now rewrite upd_nth_length.
+  - cbn [st_tabs with_ents]. apply nth_error_upd_nth_same. exact Et.
+  - cbn [t_ents]. rewrite <- H. apply m_get_set.
+Qed.
+
+(** ... and hands out copies: changing a returned object does not change what the next look-up returns *)
+Lemma get_returns_copy (s : mstate) t n n' tb v w :
+  nth_error (st_tabs s) t = Some tb -> tget m_ops (fmt n) (t_ents tb) = Some v -> same_key n n' ->
+  mouts s [OGetItem t n; OMutate (length (st_objs s)) w; OGetItem t n']
+  = [OutObj (length (st_objs s)) v; OutNone; OutObj (S (length (st_objs s))) v].
+Proof.
+  intros Et Eg H. unfold same_key in H.
+  rewrite mouts_cons, (step_getitem_ok s t n tb v Et Eg). unfold give, alloc. cbn [fst snd].
+  rewrite mouts_cons, step_mutate_ok by (cbn [st_objs]; rewrite app_length; cbn; lia). cbn [fst snd st_objs st_tabs].
+  rewrite mouts_cons.
+  erewrite step_getitem_ok.
+  - cbn [fst snd give alloc st_objs]. rewrite upd_nth_length, app_length. cbn [length mouts outs].
+    repeat f_equal. lia.
+  - cbn [st_tabs]. exact Et.
+  - rewrite <- H. exact Eg.
 Qed.
 
 (** after a declaration in table t, a look-up from t finds it under any spelling, whatever the outer scopes hold *)
@@ -614,13 +636,17 @@ Lemma lookup_after_set s t n n' r rec tb v :
   nth_error (st_tabs s) t = Some tb -> nth_error (st_objs s) r = Some v -> same_key n n' ->
   mouts s [OSet t n r; OLookup t n' rec] = [OutNone; OutObj (length (st_objs s)) v].
 Proof.
-  intros Et Er H. unfold same_key in H. unfold mouts. cbn [outs].
-  unfold step at 1 2. rewrite Et, Er. cbn [fst snd].
-  unfold step. cbn [with_ents st_objs st_tabs].
-  rewrite (nth_error_upd_nth_same _ _ _ _ Et).
-  unfold find_in. cbn [st_tabs]. destruct rec.
-  - cbn [chain_find]. rewrite (nth_error_upd_nth_same _ _ _ _ Et). cbn [t_ents]. rewrite <- H, m_get_set. reflexivity.
-  - rewrite (nth_error_upd_nth_same _ _ _ _ Et). cbn [t_ents]. rewrite <- H, m_get_set. reflexivity.
+  intros Et Er H. unfold same_key in H.
+  rewrite mouts_cons, (step_set_ok s t n r tb v Et Er). cbn [fst snd].
+  rewrite mouts_cons. unfold mstep. cbn [step mouts outs].
+  assert (E : nth_error (st_tabs (with_ents s t (tset m_ops (fmt n) v))) t
+              = Some (mkTab (tset m_ops (fmt n) v (t_ents tb)) (t_parent tb) (t_scoped tb))).
+  { cbn [st_tabs with_ents].
+    exact (nth_error_upd_nth_same (st_tabs s) t
+             (fun tb => mkTab (tset m_ops (fmt n) v (t_ents tb)) (t_parent tb) (t_scoped tb)) tb Et). }
+  rewrite E. unfold find_in. destruct rec.
+  - cbn [chain_find]. rewrite E. cbn [t_ents]. rewrite <- H, m_get_set. reflexivity.
+  - rewrite E. cbn [t_ents]. rewrite <- H, m_get_set. reflexivity.
 Qed.
 
 (** F7, repaired: with the inherited (unfolded) __delitem__ membership and deletion disagreed *)
